@@ -17,12 +17,15 @@ def RenderInj (B : List Name) : Prop :=
 /-- `allVars[name] = v` -/
 def bumpTo (nm : Name) (v : Nat) (c : Scope) : Scope := { c with vars := c.vars.set nm v }
 
+/-- utils.go:323-326: a local allocation bumps the counter of the innermost context and records the variable -/
+def addLocal (fc : Scope) (nm v : Name) : Scope :=
+  { vars := fc.vars.set nm (fc.vars.cnt nm + 1), locals := fc.locals ++ [v] }
+
 theorem newVariable_plain {name : Name} {pk : Bool} {fc : Scope} {parents chain' : List Scope} {v : Name}
     (h : newVariable false name pk (fc :: parents) = some (chain', v)) :
     v = render (encodeIdent name) (fc.vars.cnt (encodeIdent name)) ∧
       chain' = if pk then (fc :: parents).map (bumpTo (encodeIdent name) (fc.vars.cnt (encodeIdent name) + 1))
-               else { vars := fc.vars.set (encodeIdent name) (fc.vars.cnt (encodeIdent name) + 1),
-                      locals := fc.locals ++ [v] } :: parents := by
+               else addLocal fc (encodeIdent name) v :: parents := by
   rw [newVariable] at h
   split at h
   · simp at h
@@ -36,7 +39,7 @@ theorem newVariable_plain {name : Name} {pk : Bool} {fc : Scope} {parents chain'
       simp only [Bool.false_eq_true, if_false, Option.some.injEq, Prod.mk.injEq] at h
       obtain ⟨h1, h2⟩ := h
       refine ⟨by rw [← h2]; rfl, ?_⟩
-      simp only [Bool.false_eq_true, if_false]
+      simp only [Bool.false_eq_true, if_false, addLocal]
       rw [← h1, ← h2]
 
 /-- per live context: every name visible from it that is `b$k` has `k` below the context's counter for `b`, and the
@@ -150,7 +153,7 @@ theorem inv_req_plain (B : List Name) (hB : RenderInj B) {st : NState} {name : N
         exact hp.nodup_iff.mpr (List.nodup_cons.mpr ⟨hfresh, hi.nodup⟩)
       · show OKs B (st.pkgNames ++ [v]) _
         rw [hv]
-        apply OKs_bump B hB _ hnm _ _ _ ⟨o1, o2, o3⟩
+        apply OKs_bump B hB _ hnm _ st.pkgNames (fc :: parents) (show OKs B st.pkgNames (fc :: parents) from ⟨o1, o2, o3⟩)
         intro sc hsc
         simp only [List.mem_cons] at hsc
         rcases hsc with rfl | hsc
@@ -172,8 +175,8 @@ theorem inv_req_plain (B : List Name) (hB : RenderInj B) {st : NState} {name : N
     | false =>
       simp only [Bool.false_eq_true, if_false] at hc ⊢
       subst hc
-      have hloc : chainLocals ({ vars := fc.vars.set (encodeIdent name) (fc.vars.cnt (encodeIdent name) + 1),
-          locals := fc.locals ++ [v] } :: parents) = fc.locals ++ v :: chainLocals parents := by simp [chainLocals]
+      have hloc : chainLocals (addLocal fc (encodeIdent name) v :: parents) = fc.locals ++ v :: chainLocals parents := by
+        simp [chainLocals, addLocal]
       have hold : chainLocals st.chain = fc.locals ++ chainLocals parents := by rw [hch]; rfl
       refine ⟨?_, ?_, ?_, ?_⟩
       · simp only [visible, hloc]
@@ -184,7 +187,7 @@ theorem inv_req_plain (B : List Name) (hB : RenderInj B) {st : NState} {name : N
       · refine ⟨?_, ?_, o3⟩
         · intro w hw b k hb hwk
           rw [hloc] at hw
-          simp only [VarMap.cnt_set]
+          simp only [addLocal, VarMap.cnt_set]
           have holdw : w ∈ st.pkgNames ++ chainLocals (fc :: parents) →
               (if encodeIdent name = b then fc.vars.cnt (encodeIdent name) + 1 else fc.vars.cnt b) > k := by
             intro hw'
@@ -202,7 +205,7 @@ theorem inv_req_plain (B : List Name) (hB : RenderInj B) {st : NState} {name : N
             simp
           · exact holdw (by simp [chainLocals, hw])
         · intro p hp b
-          simp only [VarMap.cnt_set]
+          simp only [addLocal, VarMap.cnt_set]
           have := o2 p hp b
           split
           · rename_i e; subst e; omega
@@ -210,7 +213,7 @@ theorem inv_req_plain (B : List Name) (hB : RenderInj B) {st : NState} {name : N
       · intro sc hsc r hr
         simp only [List.mem_cons] at hsc
         rcases hsc with rfl | hsc
-        · simp only [VarMap.cnt_set]
+        · simp only [addLocal, VarMap.cnt_set]
           split
           · omega
           · exact hi.res fc (by rw [hch]; simp) r hr
@@ -314,5 +317,117 @@ theorem inv_run_plain (B : List Name) (hB : RenderInj B) : ∀ (ops : List Op) (
       simp [hs] at h
       exact inv_run_plain B hB ops s1 st' (inv_step_plain B hB hi (hops op (by simp)) hs)
         (fun o ho => hops o (List.mem_cons_of_mem _ ho)) h
+
+end GV.Proofs.NamesPlain
+
+/-! ### a sufficient condition for `RenderInj`: no `$` in the encoded names -/
+namespace GV.Proofs.NamesPlain
+open GV.Names
+
+theorem toString_toList (n : Nat) : (toString n).toList = Nat.toDigits 10 n := Nat.toList_repr
+
+theorem decimal_digit (k : Nat) : ∀ c ∈ decimal k, 48 ≤ c ∧ c ≤ 57 := by
+  intro c hc
+  simp only [decimal, List.mem_map] at hc
+  obtain ⟨ch, hch, rfl⟩ := hc
+  rw [toString_toList] at hch
+  have := Nat.isDigit_of_mem_toDigits (by decide) (by decide) hch
+  simp only [Char.isDigit, Bool.and_eq_true, decide_eq_true_eq] at this
+  have h1 : (48 : Nat) ≤ ch.toNat := by
+    have := this.1
+    simpa [UInt32.le_iff_toNat_le] using this
+  have h2 : ch.toNat ≤ 57 := by
+    have := this.2
+    simpa [UInt32.le_iff_toNat_le] using this
+  exact ⟨h1, h2⟩
+
+def decodeDec (l : List Nat) : Nat := l.foldl (fun a c => a * 10 + (c - 48)) 0
+
+theorem decode_decimal : ∀ (n : Nat), decodeDec (decimal n) = n := by
+  intro n
+  induction n using Nat.strongRecOn with
+  | _ n ih =>
+    simp only [decimal, toString_toList]
+    rw [Nat.toDigits_eq_if (by decide)]
+    split
+    · rename_i h
+      simp [decodeDec, Nat.toNat_digitChar_of_lt_ten h]
+    · rename_i h
+      have hlt : n / 10 < n := by omega
+      have := ih (n / 10) hlt
+      simp only [decimal, toString_toList] at this
+      simp only [List.map_append, List.map_cons, List.map_nil, decodeDec, List.foldl_append, List.foldl_cons, List.foldl_nil]
+      simp only [decodeDec] at this
+      rw [this, Nat.toNat_digitChar_of_lt_ten (Nat.mod_lt _ (by decide))]
+      omega
+
+theorem decimal_inj (k k' : Nat) (h : decimal k = decimal k') : k = k' := by
+  have := congrArg decodeDec h
+  rwa [decode_decimal, decode_decimal] at this
+
+theorem append_cons_unique (x : Nat) : ∀ (a a' r r' : List Nat), x ∉ a → x ∉ a' → a ++ x :: r = a' ++ x :: r' → a = a' ∧ r = r'
+  | [], [], r, r', _, _, h => by simpa using h
+  | [], c :: a', r, r', _, h2, h => by
+    simp only [List.nil_append, List.cons_append, List.cons.injEq] at h
+    exact absurd (by simp [h.1]) h2
+  | c :: a, [], r, r', h1, _, h => by
+    simp only [List.nil_append, List.cons_append, List.cons.injEq] at h
+    exact absurd (by simp [← h.1]) h1
+  | c :: a, c' :: a', r, r', h1, h2, h => by
+    simp only [List.cons_append, List.cons.injEq] at h
+    simp only [List.mem_cons, not_or] at h1 h2
+    obtain ⟨e1, e2⟩ := append_cons_unique x a a' r r' h1.2 h2.2 h.2
+    exact ⟨by rw [h.1, e1], e2⟩
+
+theorem renderInj_noDollar (B : List Name) (hB : ∀ b ∈ B, 36 ∉ b) : RenderInj B := by
+  intro b hb b' hb' k k' h
+  have hd : ∀ k, 36 ∉ decimal k := fun k hc => by have := decimal_digit k 36 hc; omega
+  unfold render at h
+  by_cases hk : k > 0 <;> by_cases hk' : k' > 0 <;> simp only [hk, hk', if_true, if_false] at h
+  · obtain ⟨e1, e2⟩ := append_cons_unique 36 b b' _ _ (hB b hb) (hB b' hb') h
+    exact ⟨e1, decimal_inj k k' e2⟩
+  · exact absurd (by rw [← h]; simp) (hB b' hb')
+  · exact absurd (by rw [h]; simp) (hB b hb)
+  · exact ⟨h, by omega⟩
+
+/-- bytes of an ASCII Go identifier (and `.`, `-`, `~`): what `url.QueryEscape` leaves alone -/
+theorem unreserved_lt (c : Nat) (h : unreserved c = true) : c < 128 ∧ c ≠ 36 := by
+  simp only [unreserved, Bool.or_eq_true, Bool.and_eq_true, decide_eq_true_eq, beq_iff_eq] at h
+  omega
+
+theorem encodeIdent_ascii : ∀ (name : Name), (∀ c ∈ name, unreserved c = true) → encodeIdent name = name
+  | [], _ => by rw [encodeIdent]
+  | c :: r, h => by
+    have hc := h c (by simp)
+    have hlt := unreserved_lt c hc
+    rw [encodeIdent]
+    have h1 : (c == 0xC2) = false := by simp; omega
+    simp only [h1, Bool.false_and, Bool.false_eq_true, if_false, hc, if_true]
+    rw [encodeIdent_ascii r (fun x hx => h x (List.mem_cons_of_mem _ hx))]
+
+theorem encodeIdent_dots_noDollar : ∀ (fn : Name), (∀ c ∈ fn, unreserved c = true) → 36 ∉ encodeIdent (dotsToMidDot fn)
+  | [], _ => by simp [dotsToMidDot, encodeIdent]
+  | c :: r, h => by
+    have hc := h c (by simp)
+    have hlt := unreserved_lt c hc
+    have ih := encodeIdent_dots_noDollar r (fun x hx => h x (List.mem_cons_of_mem _ hx))
+    rw [dotsToMidDot]
+    split
+    · rw [encodeIdent]
+      simp only [BEq.rfl, List.head?_cons, Bool.and_self, if_true, List.drop_succ_cons, List.drop_zero]
+      intro hm
+      simp only [List.mem_cons] at hm
+      rcases hm with hm | hm | hm
+      · omega
+      · omega
+      · exact ih hm
+    · rw [encodeIdent]
+      have h1 : (c == 0xC2) = false := by simp; omega
+      simp only [h1, Bool.false_and, Bool.false_eq_true, if_false, hc, if_true]
+      intro hm
+      simp only [List.mem_cons] at hm
+      rcases hm with hm | hm
+      · omega
+      · exact ih hm
 
 end GV.Proofs.NamesPlain
